@@ -117,10 +117,22 @@ def inv_init_rates(s, it):
     return And(rates_view(s, lambda u: If(it.done(u), RATEF()(st, u), RealVal(0))))
 
 
+def hist_ok(s, now):
+    """full data: every node history starts at tmin, is time-ordered up to the current time and ends with the node's current status"""
+    if not s.has('node_history'):
+        return BoolVal(True)
+    h = s.node_history
+    stv = s.status.val
+    return so.forall(so.U(), lambda x: And(
+        h.times.lens[x] >= 1, h.stats.lens[x] == h.times.lens[x], h.times.vals[x][0] == s.old.tmin,
+        h.stats.vals[x][h.times.lens[x] - 1] == stv[x], h.times.vals[x][h.times.lens[x] - 1] <= now,
+        so.forall_idx(h.times.lens[x] - 1, lambda j: h.times.vals[x][j] <= h.times.vals[x][j + 1])))
+
+
 def inv_main(s, it):
     st = s.status.val
     n = s.times.n
-    return And(n >= 1, s.times.a[0] == s.old.tmin, so.forall_idx(n - 1, lambda j: s.times.a[j] <= s.times.a[j + 1]),
+    return And(hist_ok(s, s.times.last()), n >= 1, s.times.a[0] == s.old.tmin, so.forall_idx(n - 1, lambda j: s.times.a[j] <= s.times.a[j + 1]),
                so.forall_idx(n, lambda j: so.xr_lt(s.times.a[j], s.old.tmax), lo=1),
                so.xr_le(s.times.last(), s.t),
                rates_view(s, lambda u: RATEF()(st, u)), data_ok(s, n), so.forall(so.U(), lambda u: s.status.dom[u]),
@@ -153,8 +165,26 @@ def site_clock(s, info):
     return And(rates_view(s, lambda u: RATEF()(s.status.val, u)), info['rate'] == LD.total(s.nodes_by_rate))
 
 
+def post_full(old, s, ret):
+    """the object gets the contact network, the histories kept during the run and the reported statuses; the run stopped for the
+    same reason as in the plain mode"""
+    if not (isinstance(ret, SObj) and ret.cls == 'Simulation_Investigation'):
+        return BoolVal(False)
+    a = ret.f.get('ctor_args')
+    kw = ret.f.get('ctor_kwargs') or {}
+    if not (isinstance(a, tuple) and len(a) == 2 and a[0] is old.G and a[1] is s.node_history):
+        return BoolVal(False)
+    ps = kw.get('possible_statuses')
+    same = isinstance(ps, tuple) and len(ps) == len(old.return_statuses) and all(x is y or (z3.is_expr(x) and z3.is_expr(y) and x.eq(y))
+                                                                              for x, y in zip(ps, old.return_statuses))
+    return And(BoolVal(bool(same)), hist_ok(s, s.times.last()),
+               Or(Not(LD.total(s.nodes_by_rate) > 0), Not(so.xr_lt(s.t, old.tmax))))
+
+
 def post(old, s, ret):
     from ..pyvc.engine import _PyList
+    if isinstance(ret, SObj):
+        return post_full(old, s, ret)
     if not isinstance(ret, _PyList) or len(ret.items) != 1 + len(old.return_statuses):
         return BoolVal(False)
     times = ret.items[0]
@@ -167,6 +197,11 @@ def post(old, s, ret):
     # stops exactly when all rates are zero or tmax is reached
     c.append(Or(Not(LD.total(s.nodes_by_rate) > 0), Not(so.xr_lt(s.t, old.tmax))))
     return And(*c)
+
+
+def install(lib):
+    from .gillespie_full import sim_investigation_ctor
+    lib.extra_mod['EoN.Simulation_Investigation'] = sim_investigation_ctor
 
 
 def contracts():
@@ -186,7 +221,11 @@ def contracts():
         cases=[Case('two-reported-statuses', dict(G=T.graph(), rate_function=mk_rate, transition_choice=mk_choice,
                                                   get_influence_set=mk_infl, IC=total_ic, return_statuses=two_statuses,
                                                   tmin=T.real, tmax=T.xreal, parameters=T.const(PARAMS),
-                                                  return_full_data=T.false, sim_kwargs=T.none))],
+                                                  return_full_data=T.false, sim_kwargs=T.none)),
+               Case('full-data', dict(G=T.graph(), rate_function=mk_rate, transition_choice=mk_choice,
+                                      get_influence_set=mk_infl, IC=total_ic, return_statuses=two_statuses,
+                                      tmin=T.real, tmax=T.xreal, parameters=T.const(PARAMS),
+                                      return_full_data=T.true, sim_kwargs=T.none))],
         requires=lambda s: And(so.xr_lt(s.tmin, s.tmax), s.G.N >= 1), axioms=axioms_for,
         locals_={'status': T.dict_of('U', 'St'), 'data': T.dict_of_lists('St', 'I', default_empty=False),
                  'nodes_by_rate': LD.mk_ld('U', True), 'times': T.list_of('R'), 'returnval': None},
